@@ -391,6 +391,9 @@ def run(ctx):
     selection.next_obligations(ctx, 'C02')
     from checks import helpers_ob
     helpers_ob.helper_obligations(ctx, 'C02')
+    # ... and the dispatch that runs those listeners (tools/events.py)
+    from checks import events_ob
+    events_ob.events_obligations(ctx, 'C02'); events_ob.register_replayers(ctx, 'C02')
     bounded_models(ctx)
     def _rid(r):
         from checks import c09
